@@ -88,19 +88,21 @@ func c16Scenarios(quick bool) []c16Scenario {
 			c16Scenario{Name: "3 species x 2 offspring, all add-link", HB: three, Profile: "addlink", Policy: "H", Fit: 1},
 			c16Scenario{Name: "3 species x 2 offspring, mixed, after one warm-up epoch", HB: three, Profile: "mixed", Policy: "R3", Fit: 6, Warm: 1},
 			c16Scenario{Name: "2 species x 2 offspring, all add-node, after one warm-up epoch", HB: two, Profile: "addnode", Policy: "H", Fit: 1, Warm: 1},
+			c16Scenario{Name: "3 old species (3,2,2), stolen babies and super-champion offspring, mixed", HB: hbSpec{Sizes: []int{3, 2, 2}, Ages: []int{7, 8, 9}, Lags: []int{0, 1, 2}}, Profile: "mixed", Policy: "R1", Fit: 2, Stolen: 3},
+			c16Scenario{Name: "stagnating population (3,2,2): delta coding, super-champion add-link", HB: hbSpec{Sizes: []int{3, 2, 2}, Ages: []int{3, 3, 3}, Lags: []int{0, 0, 0}, Stagnant: true}, Profile: "mixed", Policy: "R2", Fit: 2},
 		)
 	}
 	return scs
 }
 
 type c16Outcome struct {
-	res      vsched.Result
-	err      error
-	hash     uint64
-	viol     string // property clause violated in the resulting population
-	violMsg  string
-	threads  int
-	draws    int
+	res     vsched.Result
+	err     error
+	hash    uint64
+	viol    string // property clause violated in the resulting population
+	violMsg string
+	threads int
+	draws   int
 }
 
 // c16Execute runs one schedule of one scenario.
@@ -410,6 +412,9 @@ func runC16RacePass(c *Ctx) {
 // c16RunRacePass runs build/mc-race several times and turns a detector report into a violation.
 func c16RunRacePass(c *Ctx) {
 	bin := filepath.Join(verifRoot, "build", "mc-race")
+	if b := os.Getenv("VERIF_MC_RACE"); b != "" {
+		bin = b
+	}
 	if _, err := os.Stat(bin); err != nil {
 		panic("build/mc-race is missing (./check C16 builds it): " + err.Error())
 	}
